@@ -215,6 +215,39 @@ Proof.
   split; [reflexivity|]. split; [reflexivity|exact Hs0].
 Qed.
 
+(* ---- the command-line driver (src/game/position_counter.rs, run_count_positions with the `all`
+   strategy): for depth = 1..d it counts from the SAME board with the SAME long-lived generator,
+   whose cache therefore carries over from one depth to the next; it prints each figure and
+   their total ---- *)
+Fixpoint cli_counts (reduce : list (res N) -> res N) (depths : list nat) (s : gen_state) (b : board) (c : color)
+  : res (list N * gen_state) :=
+  match depths with
+  | [] => Ok ([], s)
+  | d :: rest =>
+      let* (n, _, s1) := count_top_c reduce d s b c in
+      let* (ns, s2) := cli_counts reduce rest s1 b c in
+      Ok (n :: ns, s2)
+  end.
+
+Definition cli_total (ns : list N) : N := fold_left N.add ns 0%N.
+
+(** whatever the earlier depths left in the generator's cache, every figure printed is the exact
+    number of move paths (lengths 1..depth+1) and the cache stays sound *)
+Theorem cli_counts_exact : forall reduce depths s b c ns s',
+  fair_reduce reduce -> Good b c -> sound_st s ->
+  cli_counts reduce depths s b c = Ok (ns, s') ->
+  ns = map (fun d => nsum T rook_t bishop_t d b c) depths /\ sound_st s'.
+Proof.
+  intros reduce depths. induction depths as [|d rest IH]; intros s b c ns s' F G Hs E; cbn [cli_counts] in E.
+  - injection E as <- <-. split; [reflexivity|exact Hs].
+  - destruct (count_top_c reduce d s b c) as [[[n b1] s1]| |] eqn:E1; cbn [bind] in E; try discriminate E.
+    destruct (count_top_c_exact reduce d s b c n b1 s1 F G Hs E1) as (_ & -> & Hs1).
+    destruct (cli_counts reduce rest s1 b c) as [[ns2 s2]| |] eqn:E2; cbn [bind] in E; try discriminate E.
+    injection E as <- <-.
+    destruct (IH s1 b c ns2 s2 F G Hs1 E2) as [-> Hs2].
+    split; [reflexivity|exact Hs2].
+Qed.
+
 End PerftCache.
 
 (* non-vacuity: the cached counter from the initial position, eviction policy "keep 3 entries" *)
